@@ -67,14 +67,16 @@ Definition cl_limit : Z := 2048.      (* security.content_length_limit = 2 KB *)
 Definition mp_limit : Z := 4096.      (* security.multipart_form_data_limit = 4 KB *)
 Definition hdr_limit : Z := 16384.
 
-Inductive app := AppSync | AppAsync | AppUp | AppUpm | AppProbe.
+Inductive app := AppSync | AppAsync | AppUp | AppUpm | AppProbe | AppUpA | AppUpT.
 Definition s_sync : list N := [47;115;121;110;99]%N.
 Definition s_async : list N := [47;97;115;121;110;99]%N.
 Definition s_up : list N := [47;117;112]%N.
 Definition s_upm : list N := [47;117;112;109]%N.
 Definition s_probe : list N := [47;112;114;111;98;101]%N.
+Definition s_upa : list N := [47;117;112;97]%N.
+Definition s_upt : list N := [47;117;112;116]%N.
 Definition script_names : list (list N * app) :=
-  [(s_sync, AppSync); (s_async, AppAsync); (s_up, AppUp); (s_upm, AppUpm); (s_probe, AppProbe)].
+  [(s_sync, AppSync); (s_async, AppAsync); (s_up, AppUp); (s_upm, AppUpm); (s_probe, AppProbe); (s_upa, AppUpA); (s_upt, AppUpT)].
 (* applications_pool lookup: mount_point(script_name) matches the script name exactly *)
 Fixpoint mounted_in (l : list (list N * app)) (script : list N) : option app :=
   match l with
@@ -88,21 +90,25 @@ Inductive item :=
 | IOk (a : app) | IStatus (code : Z) | IRaw400 | IGetValues (l : list N) | IUnknownRole
 | IEnd | IUnsafe | IUnmodelled | IFuel.
 
-Record counters := mkC { c_sync : Z; c_async : Z; c_setup : Z; c_main : Z; c_err : Z; c_end : Z }.
-Definition c0 : counters := mkC 0 0 0 0 0 0.
+Record counters := mkC { c_sync : Z; c_async : Z; c_setup : Z; c_main : Z; c_err : Z; c_end : Z; c_abort : Z }.
+Definition c0 : counters := mkC 0 0 0 0 0 0 0.
 Definition cadd (a b : counters) : counters :=
   mkC (c_sync a + c_sync b) (c_async a + c_async b) (c_setup a + c_setup b) (c_main a + c_main b)
-      (c_err a + c_err b) (c_end a + c_end b).
+      (c_err a + c_err b) (c_end a + c_end b) (c_abort a + c_abort b).
 Definition b2z (b : bool) : Z := if b then 1 else 0.
-Definition is_filter (a : app) : bool := match a with AppUp | AppUpm => true | _ => false end.
+Definition is_filter (a : app) : bool := match a with AppUp | AppUpm | AppUpA | AppUpT => true | _ => false end.
+(* applications whose filter set-up call of main() throws: abort_upload(403) / std::runtime_error *)
+Definition setup_throws (a : app) : bool := match a with AppUpA | AppUpT => true | _ => false end.
 Definition handler_counters (a : app) (setup : bool) : counters :=
   match a with
-  | AppSync => mkC 1 0 0 0 0 0
-  | AppAsync => mkC 0 1 0 0 0 0
-  | AppUp | AppUpm => mkC 0 0 (b2z setup) 1 0 (b2z setup)
+  | AppSync => mkC 1 0 0 0 0 0 0
+  | AppAsync => mkC 0 1 0 0 0 0 0
+  | AppUp | AppUpm | AppUpA | AppUpT => mkC 0 0 (b2z setup) 1 0 (b2z setup) 0
   | AppProbe => c0
   end.
-Definition error_counters (setup : bool) : counters := mkC 0 0 (b2z setup) 0 (b2z setup) 0.
+Definition error_counters (setup : bool) : counters := mkC 0 0 (b2z setup) 0 (b2z setup) 0 0.
+(* the set-up call ran and threw: no filter is installed, context::on_headers_ready returns translate_exception() *)
+Definition abort_counters : counters := mkC 0 0 1 0 0 0 1.
 
 (* ------------------------------------------------------------------ http_protocol.h / content type *)
 Definition separator (c : N) : bool :=
@@ -157,6 +163,9 @@ Definition content_start (script : list N) (cl : Z) (ct : list N) : cres :=
   | None => CStatus 404 c0
   | Some a =>
       let setup := is_filter a && negb (cl =? 0) in
+      if setup && setup_throws a then
+        CStatus (match a with AppUpA => 403 | _ => 500 end) abort_counters   (* before on_content_start is reached *)
+      else
       if cl =? 0 then CHandled a (handler_counters a false)
       else if cl <? 0 then CStatus 400 (error_counters setup)
       else if cl >? (if is_multipart ct then mp_limit else cl_limit) then CStatus 413 (error_counters setup)
